@@ -48,6 +48,13 @@ def programs():
     out.append({"name": "child[every-kind]", "seq": [{"k": "child", "body": kinds()}]})
     out.append({"name": "par[every-kind|S]", "seq": [{"k": "par", "cfg": ac, "branches": [kinds(), S("side")]}]})
     out.append({"name": "map2[wfc.W.S]", "seq": [{"k": "map", "items": [1, 2], "cfg": ac, "body": P.U("N") + P.U("W") + S("m")}]})
+    # nested contexts whose result exceeds the checkpoint limit (summary path of the completion record)
+    out.append({"name": "child[child-oversized]+S", "seq": [{"k": "child", "body": [
+        {"k": "child", "body": S("in"), "big": 270_000}, {"k": "step", "fn": {"ret": "after-big"}}]}] + S("t")})
+    out.append({"name": "child[map-oversized]", "seq": [{"k": "child", "body": [
+        {"k": "map", "items": [1, 2, 3], "cfg": ac, "body": [{"k": "step", "fn": {"bytes": 100_000}}]}]}]})
+    out.append({"name": "par[child-oversized|S]", "seq": [{"k": "par", "cfg": ac, "branches": [
+        [{"k": "child", "body": S("in"), "big": 270_000}], S("side")]}]})
     out.append({"name": "par[R|W.S]", "seq": [{"k": "par", "cfg": ac, "branches": [P.U("R"), [{"k": "wait", "s": 1}] + S("z")]}]})
     out.append({"name": "first[fast|slow.S]+S", "seq": [{"k": "par", "cfg": {"cc": "first"}, "branches": [S("w"), SLOW(2, "l") + S("l2")]}] + S("after")})
     return out
@@ -197,7 +204,7 @@ def run(ctx):
                               "replay": {"cross_unit": True}})
             rev.setdefault(i, p)
     cov["distinct_positions"] = len(glob)
-    cov["bounds"] = ("19 program shapes (three placing every operation kind inside a child context, a parallel branch and a map item) + 2 in which sibling branches issue operations on the enclosing context (shared call counter, line-level preemption in threading.py) (nesting <=3, <=3 branches/items, sibling maps, child-in-branch-in-map, callbacks inside "
+    cov["bounds"] = ("22 program shapes (three with nested oversized contexts; three placing every operation kind inside a child context, a parallel branch and a map item) + 2 in which sibling branches issue operations on the enclosing context (shared call counter, line-level preemption in threading.py) (nesting <=3, <=3 branches/items, sibling maps, child-in-branch-in-map, callbacks inside "
                      "branches, max_concurrency, early completion); per shape every single crash point, every schedule with "
                      "<=1 (quick) / <=2 (thorough) deviations, policies rtb/low/high/rr; the relation position->id is "
                      "checked within each execution, across all executions of a unit and across all programs")
